@@ -360,6 +360,32 @@ func r013(c *Ctx) {
 			bad = true
 		}
 	}
+	if found && bad {
+		// (the verdict may be tested twice - once to log, once to record: a way out is followed with what it already
+		// decided about the verdict)
+		if paths, complete := enumPathsX(cl, func(*ssa.Return) bool { return true }, 4000); complete {
+			bad = false
+			for _, pth := range paths {
+				isFalse := false
+				for _, ce := range pth.conds {
+					v, taken := ce.cond, ce.taken
+					for {
+						u, ok := v.(*ssa.UnOp)
+						if !ok || u.Op != token.NOT {
+							break
+						}
+						v, taken = u.X, !taken
+					}
+					if v == res && !taken {
+						isFalse = true
+					}
+				}
+				if isFalse && !pth.passes(isStoreTrue) {
+					bad = true
+				}
+			}
+		}
+	}
 	c.ob(rule, "waiter/failure-is-recorded", res.Pos(), found && !bad, true, "when Target.WaitUntilHealthy returns false every path must execute failed.Store(true)")
 	// the target waited on is the loop element, timeout is the parameter
 	timeoutOK := false
@@ -1088,6 +1114,24 @@ func r017(c *Ctx, rule string) {
 				if !okErr {
 					break
 				}
+			}
+		}
+		if !okErr {
+			// (`if err == nil { log }; return err`: every way out after the call returns the call's error, or the error
+			// is known to be nil there)
+			if paths, complete := enumPathsX(fn, func(*ssa.Return) bool { return true }, 4000); complete {
+				n, good := 0, 0
+				for _, pth := range paths {
+					if pth.ret == nil || !pth.passes(func(in ssa.Instruction) bool { return in == ssa.Instruction(call) }) {
+						continue
+					}
+					n++
+					isNil, _ := nilKnowledgeOf(pth.conds, sameAs(call))
+					if pth.pathValue(lastRet(pth.ret)) == ssa.Value(call) || isNil {
+						good++
+					}
+				}
+				okErr = n > 0 && good == n
 			}
 		}
 		c.ob(rule, "Router."+name+"/returns-the-deploy-error", fn.Pos(), okErr, true, "when the deploy routine fails (unhealthy targets, host conflict) the command must return that error")
